@@ -18,7 +18,7 @@ MANIFEST = {
     "text": "For 15 readable formats a file of N frames (quick N=5; thorough N in {1,5,7}) is written once; then the complete "
             "product stride 1..S x atom_indices {None,[0],[1,3],all-but-first} for md.load, every frame index for "
             "load(frame=)/load_frame, chunk 0..N+1 x stride x skip 0..K x atom_indices for md.iterload (horizon N+3 "
-            "chunks), and file lists of length 1..3 is executed and compared field by field (xyz, time, cell lengths and "
+            "chunks), file lists of length 1..3 (also two consecutive loads through ONE Topology object), a hand-written CHARMM fixed-atom DCD and a 10-atom mdcrd without box line is executed and compared field by field (xyz, time, cell lengths and "
             "angles bit-for-bit, topology ==) with the same slicing of the full load. Exhaustive over the listed axes.",
     "note": "Differential oracle: the full load is trusted here (C01 anchors it). 6 atoms, small N; .arc uses a generated "
             "5-frame file. Formats without stored time are compared on the times the loaders synthesise.",
